@@ -21,7 +21,13 @@ CONSTANTS CidStates,     \* subset of {"valid", "rejected", "missing"}
           FileKinds,     \* subset of the kinds below
           MaxFiles,
           Untils,        \* subset of {"absent", "all", "0", "k2", "k9"}  ("all" = -1)
-          ArgStates      \* subset of {"ok", "none", "unknownOption", "untilTooSmall", "untilNotNumber"}
+          ArgStates,     \* subset of {"ok", "none", "unknownOption", "untilTooSmall", "untilNotNumber", "badLogLevel",
+                         \*            "untilWithoutValue", "pluginsWithoutValue", "optionBetweenCidAndData"}
+                         \* ("optionBetweenCidAndData": argparse takes CID-FILE and DATA-FILEs as one group of positional
+                         \* arguments; `cutplace cid.csv --until 0 data.csv` is refused as unusable, exit code 2)
+          Decorations    \* how a usable command line is written: subset of {"plain", "logDebug", "logCritical", "pluginsEmpty",
+                         \* "shortUntil", "untilEquals", "optionsLast"}; no action reads it -- the exit code
+                         \* is a function of CID, files and limit alone (the replay is what checks that)
 
 \* first offending row of each kind of file (0 = none); "shares" has the same keys as its sibling "accepted" file
 \* ("lateDamage": the container itself is malformed at row 4 -- delimited text the csv reader refuses there)
@@ -31,15 +37,15 @@ Unreadable(kind) == kind \in {"missing", "directory"}
 Limit(u) == CASE u = "absent" -> -1 [] u = "all" -> -1 [] u = "0" -> 0 [] u = "k2" -> 2 [] u = "k9" -> 9
 Rejected(kind, u) == BadAt(kind) > 0 /\ (Limit(u) = -1 \/ BadAt(kind) <= Limit(u))
 
-VARIABLES args, cid, files, until,   \* the command line
+VARIABLES args, cid, files, until, deco,   \* the command line
           stage,                     \* "args" | "cid" | "files" | "done"
           idx, allOk, exit
-vars == <<args, cid, files, until, stage, idx, allOk, exit>>
+vars == <<args, cid, files, until, deco, stage, idx, allOk, exit>>
 
 FileLists == UNION {[1..n -> FileKinds] : n \in 0..MaxFiles}
-Init == /\ args \in ArgStates /\ cid \in CidStates /\ files \in FileLists /\ until \in Untils
+Init == /\ args \in ArgStates /\ cid \in CidStates /\ files \in FileLists /\ until \in Untils /\ deco \in Decorations
         /\ stage = "args" /\ idx = 0 /\ allOk = TRUE /\ exit = -1
-Same == UNCHANGED <<args, cid, files, until>>
+Same == UNCHANGED <<args, cid, files, until, deco>>
 \* applications.py:55-134
 ParseArgs == /\ stage = "args" /\ Same /\ UNCHANGED <<idx, allOk>>
              /\ IF args # "ok" THEN stage' = "done" /\ exit' = 2 ELSE stage' = "cid" /\ UNCHANGED exit
@@ -73,5 +79,5 @@ ExitCodeTable == stage = "done" =>
 ZeroIffAllAccepted == stage = "done" => ((exit = 0) <=> (args = "ok" /\ cid = "valid" /\ \A k \in Kinds : ~Unreadable(k) /\ ~Rejected(k, until)))
 TypeOK == exit \in {-1, 0, 1, 2, 3}
 Emit == stage = "done" =>
-   PrintT(<<"VEC", ToJson([args |-> args, cid |-> cid, files |-> files, until |-> until, exit |-> exit])>>)
+   PrintT(<<"VEC", ToJson([args |-> args, cid |-> cid, files |-> files, until |-> until, deco |-> deco, exit |-> exit])>>)
 =============================================================================
